@@ -604,8 +604,49 @@ def check_C07(chk):
     c07d(chk)
     c07e(chk)
     c07f(chk)
-    for r, n in (("C07.a", 3), ("C07.b", 5), ("C07.c", 5), ("C07.d", 4), ("C07.e", 5), ("C07.f", 6)):
+    c07g(chk)
+    for r, n in (("C07.a", 3), ("C07.b", 5), ("C07.c", 5), ("C07.d", 4), ("C07.e", 5), ("C07.f", 6), ("C07.g", 2)):
         chk.floor(r, n)
+
+
+def c07g(chk):
+    """a spectrum written to an existing, longer file must replace it: every file opened for writing in the workspace is created-or-truncated"""
+    prog = chk.prog
+    n = 0
+    for f in prog.fn_list:
+        if f.derived:
+            continue
+        for b, t in f.calls():
+            p = t["callee"].get("path") or ""
+            if p in ("std::fs::File::create", "std::fs::write"):
+                n += 1
+                chk.saw_calls()
+                chk.ob("C07.g", "open-for-write/%s@%s" % (p.split("::")[-1], RPN(f.path)), True, f.loc(b), "%s truncates an existing file: no stale bytes follow the new contents" % p, nontrivial=False)
+            elif p in ("std::fs::OpenOptions::open", "std::fs::File::create_new") or p.startswith("std::fs::OpenOptions::") and p.endswith("::open"):
+                n += 1
+                chk.saw_calls()
+                unit = [f] + prog.closures_of(f.path)
+                def flag(name):
+                    vals = []
+                    for g in unit:
+                        for b2, t2 in g.calls():
+                            if (t2["callee"].get("path") or "") == "std::fs::OpenOptions::" + name and len(t2["args"]) == 2:
+                                c = an.const_of(g, t2["args"][1])
+                                vals.append(c.get("val") if c else None)
+                    return vals
+                writes = any(v is True for v in flag("write")) or any(v is True for v in flag("append"))
+                ok = (not writes) or flag("truncate") == [True] or flag("append") == [True] or p.endswith("create_new")
+                chk.ob("C07.g", "open-for-write/OpenOptions@%s" % RPN(f.path), ok, f.loc(b),
+                       "a file opened for writing without truncate(true) keeps the tail of a longer previous file: the written spectrum is followed by stale bytes and cannot be read back (write=%s truncate=%s append=%s)" % (flag("write"), flag("truncate"), flag("append")))
+    w = chk.fn("sfs_core::spectrum::io::write::Builder::write_to_path")
+    if w is not None:
+        opens = [callee_name(t["callee"]) for b, t in w.calls() if callee_name(t["callee"]) in ("std::fs::File::create", "std::fs::File::create_new", "std::fs::OpenOptions::open", "std::fs::write", "std::fs::File::open")]
+        chk.ob("C07.g", "write_to_path/opens-the-output-once", len(opens) == 1, w.loc(), "write_to_path opens its target with %s" % opens)
+
+
+def RPN(path):
+    import rules_panic
+    return rules_panic.norm_fn(path).split("sfs_core::")[-1]
 
 
 def c07a(chk):
